@@ -56,6 +56,20 @@ fn twin_siggen(seed: u64, budget: u64, exact: bool) -> i32 {
                 return 1;
             }
         }
+        // library level: block sizes that do not divide the 64 KiB parallel threshold, on inputs above it
+        if round < 6 { for &bs in &[1000usize, 3000, 100_000, 65_537, 7] {
+            let n = 65_537 + (round as usize) * 33_333 + r.below(50_000) as usize;
+            let data = gen(round % 5, n, seed + 1000 + round as u64);
+            let want = ref_sig_mode(&data, bs, exact);
+            let got = std::panic::catch_unwind(|| Signature::generate(&mut Cursor::new(&data), bs));
+            cases += 1;
+            let bad = match got { Ok(Ok(g)) => if g != want { Some("differs from the block-wise definition") } else { None }, Ok(Err(_)) => Some("returned an error"), Err(_) => Some("panicked") };
+            if let Some(b) = bad {
+                println!("WITNESS {{\"kind\":\"siggen\",\"gen\":{},\"n\":{n},\"bs\":{bs},\"seed\":{},\"what\":\"Signature::generate on {n} bytes (generator {}) with block size {bs} {b}\"}}", round % 5, seed + 1000 + round as u64, round % 5);
+                println!("CASES {cases}");
+                return 1;
+            }
+        } }
         round += 1;
         if round >= 40 && t0.elapsed() > Duration::from_secs(budget) { break; }
         if t0.elapsed() > Duration::from_secs(budget * 3 + 5) { break; }
